@@ -207,6 +207,113 @@ Definition seq_params (m : mode) : list (list pval) :=
   | Custom ps t => seq_custom ps t
   end.
 
+(* ----------------------------------------------------- how the dask path is CODED (regenerated) *)
+(* The rows below are regenerated from the source on every run by translator/c07.py (Gen_C07.v defines
+   `src_cfg : dask_cfg`); the theorems are stated for every configuration that has the properties they need
+   and are instantiated with the regenerated one. *)
+
+(* SequentialMode.create_params: rows = zip( *values )  |  one parameter at a time with the defaults (the
+   generator of the non-dask path, get_parameters_item) *)
+Inductive seq_rows := SeqZip | SeqEnumerate.
+(* ProductMode.create_params: levels = list(step)  |  list(dict.fromkeys(step)) *)
+Inductive prod_levels := LevelsRaw | LevelsDedup.
+(* convert_custom_data: a bare number when len(params) == 1 (params = list(step))  |  when params == "_"
+   (params = step.values) *)
+Inductive custom_test := ByLength | ByPlaceholder.
+(* _run_pipelines_array_to_datatree: dict(zip(<mapping>, params_tuple))  |  values looked up by their own key *)
+Inductive bind_kind := BindPosition | BindName.
+
+Record dask_cfg := mkCfg {
+  cfg_seq : seq_rows;
+  cfg_prod : prod_levels;
+  cfg_custom : custom_test;
+  cfg_bind : bind_kind;
+  cfg_same_mapping : bool;        (* the mapping zipped with the tuple is the dim_names handed to create_params *)
+  cfg_names_keep_order : bool;    (* _get_short_dimension_names_new: one entry per key of `types`, in its order *)
+  cfg_types_steps_order : bool;   (* Observation._get_parameter_types: keys inserted in enabled_steps order *)
+  cfg_tuple_steps_order : bool    (* create_params (all modes): element k of a tuple belongs to enabled_steps[k] *)
+}.
+
+(* the code of the unchanged tree of round 1, and the code after the repairs of round 2 *)
+Definition cfg_round1 : dask_cfg := mkCfg SeqZip LevelsRaw ByLength BindPosition true true true true.
+Definition cfg_repaired : dask_cfg := mkCfg SeqEnumerate LevelsDedup ByPlaceholder BindPosition true true true true.
+
+(* dict.fromkeys: first occurrences, in order *)
+Fixpoint dedup (l : list pval) : list pval :=
+  match l with
+  | [] => []
+  | x :: r => x :: filter (fun y => negb (pval_eqb x y)) (dedup r)
+  end.
+
+Definition dask_product_cfg (lv : prod_levels) (vs : list (list pval)) :=
+  match lv with
+  | LevelsRaw => dask_product vs
+  | LevelsDedup => dask_product (map dedup vs)
+  end.
+
+Definition dask_sequential_cfg (sr : seq_rows) (defaults : list pval) (vs : list (list pval)) :=
+  match sr with
+  | SeqZip => dask_sequential vs
+  | SeqEnumerate => seq_sequential defaults vs
+  end.
+
+Fixpoint dask_custom_row_cfg (ct : custom_test) (ps : list cpar) (row : list Z) : list pval :=
+  match ps with
+  | [] => []
+  | p :: r =>
+      (match ct, p with
+       | ByLength, _ => if Nat.eqb (width p) 1 then PS (hd 0%Z row) else PV (firstn (width p) row)
+       | ByPlaceholder, CScalar => PS (hd 0%Z row)
+       | ByPlaceholder, CVec w => PV (firstn w row)
+       end) :: dask_custom_row_cfg ct r (skipn (width p) row)
+  end.
+
+Definition dask_params_cfg (c : dask_cfg) (m : mode) : option (list nat * list (list pval)) :=
+  match m with
+  | Product vs => dask_product_cfg (cfg_prod c) vs
+  | Sequential d vs => let r := dask_sequential_cfg (cfg_seq c) d vs in Some ([length r], r)
+  | Custom ps t => let r := map (dask_custom_row_cfg (cfg_custom c) ps) t in Some ([length r], r)
+  end.
+
+(* ---- binding of the tuple's values to the parameter keys (keys = nat identifiers, steps order) ---- *)
+Section Binding.
+  Context {V : Type}.
+
+  Fixpoint assoc (k : nat) (d : list (nat * V)) : option V :=
+    match d with
+    | [] => None
+    | (k', v) :: r => if Nat.eqb k k' then Some v else assoc k r
+    end.
+
+  (* what the run receives for every parameter key (in steps order).  `zip_order` = iteration order of the
+     mapping that is zipped with the tuple; `tuple_keys` = the key each tuple element was built for *)
+  Definition received (b : bind_kind) (zip_order tuple_keys keys : list nat) (tuple : list V) : list (option V) :=
+    match b with
+    | BindPosition => map (fun k => assoc k (combine zip_order tuple)) keys
+    | BindName => map (fun k => assoc k (combine tuple_keys tuple)) keys
+    end.
+End Binding.
+
+Definition binding_ok (c : dask_cfg) : bool :=
+  cfg_tuple_steps_order c
+  && match cfg_bind c with
+     | BindName => true
+     | BindPosition => cfg_same_mapping c && cfg_names_keep_order c && cfg_types_steps_order c
+     end.
+
+(* the tasks of the parallel path: one per cell, slot = row-major position, input = what the run receives *)
+Definition dask_tasks (b : bind_kind) (zip_order tuple_keys keys : list nat) (cells : list (list pval))
+  : list (nat * list (option pval)) :=
+  combine (seq 0 (length cells)) (map (received b zip_order tuple_keys keys) cells).
+
+(* one key per parameter, one default / one declaration per parameter *)
+Definition mode_wf (n : nat) (m : mode) : Prop :=
+  match m with
+  | Product vs => length vs = n
+  | Sequential d vs => length d = n /\ length vs = n
+  | Custom ps _ => length ps = n
+  end.
+
 (* ------------------------------------------------------------------- tasks, schedules, assembly *)
 Section Tasks.
   Context {A B : Type}.
@@ -234,6 +341,15 @@ Section Tasks.
   (* islands: executor.map(create_island, seeds) -- task k = (k, seeds[k]), results read by position *)
   Definition island_tasks (seeds : list A) : list task := combine (seq 0 (length seeds)) seeds.
 End Tasks.
+
+(* the two results as label -> data maps.  The run is a function f of the values it receives for the keys
+   (C06: it works on its own copy); the sequential path sets every key by name. *)
+Definition seq_result {B} (f : list (option pval) -> B) (m : mode) : list (list pval * B) :=
+  map (fun t => (t, f (map Some t))) (seq_params m).
+Definition dask_result {B} (f : list (option pval) -> B) (cells : list (list pval))
+           (completion : list (nat * list (option pval))) : list (list pval * option B) :=
+  combine cells (assemble f (length cells) completion).
+
 
 (* DaskBFE: decision vectors cut into chunks of c rows, each chunk evaluated by one task *)
 Fixpoint chunks_fuel {A} (fuel c : nat) (l : list A) : list (list A) :=
@@ -385,6 +501,21 @@ Definition case_violates (c : par_case) : bool :=
       || match pc_files c with None => false | Some fs => negb (files_ok_from 0 dc fs) end
   end.
 
+Definition case_mismatch_cfg (cf : dask_cfg) (c : par_case) : bool :=
+  if negb (pc_model c) then false else
+  negb
+    (match dask_params_cfg cf (pc_mode c), pc_dask c with
+     | None, None => true
+     | Some (sh, cells), Some (sh', cells') =>
+         nat_list_eqb sh sh' && list_eqb cell_eqb (map model_cell cells) cells'
+     | _, _ => false
+     end
+     &&
+     match pc_seq c with
+     | None => true
+     | Some cs => same_cells (map model_cell (seq_params (pc_mode c))) cs
+     end).
+
 Fixpoint indices_where {A} (p : A -> bool) (l : list A) (k : Z) : list Z :=
   match l with
   | [] => []
@@ -393,3 +524,4 @@ Fixpoint indices_where {A} (p : A -> bool) (l : list A) (k : Z) : list Z :=
 
 Definition mismatches (cs : list par_case) : list Z := indices_where case_mismatch cs 0%Z.
 Definition violations (cs : list par_case) : list Z := indices_where case_violates cs 0%Z.
+Definition mismatches_cfg (cf : dask_cfg) (cs : list par_case) : list Z := indices_where (case_mismatch_cfg cf) cs 0%Z.
